@@ -103,6 +103,9 @@ def structural_update0(op, tree_tpl, parallel=False):
     if o in ('del', 'delpath') and op.get('via') == 'root':
         # the same deletion named by a path of two elements, sent to the root
         return {'root': {'_delete': [('agents', op['k'])]}}
+    if o in ('del', 'delpath') and op.get('via') == 'dotdot':
+        # ... and by a path that climbs out of the store it is sent to
+        return {'pool': {'_delete': [('..', 'agents', op['k'])]}}
     if o == 'del':
         return {'agents': {'_delete': [op['k']]}}
     if o == 'delpath':
@@ -616,8 +619,8 @@ def random_history(rng, length, initial_model, **kw):
             op['noise'] = rng.choice([1, 2])
         if op['op'] == 'div' and rng.random() < 0.5:
             op['keyonly'] = True
-        if op['op'] in ('del', 'delpath') and rng.random() < 0.4:
-            op['via'] = 'root'
+        if op['op'] in ('del', 'delpath') and rng.random() < 0.5:
+            op['via'] = rng.choice(['root', 'root', 'dotdot'])
         ops.append(op)
         if op['op'] == 'addex':
             break
